@@ -68,6 +68,20 @@ func (fb *fileContext) ensureImport(importPath string) {
 	sort.Strings(fb.fdp.Dependency)
 }
 
+func (fb *fileContext) hasType(name string) bool {
+	for _, msg := range fb.fdp.MessageType {
+		if msg.GetName() == name {
+			return true
+		}
+	}
+	for _, enum := range fb.fdp.EnumType {
+		if enum.GetName() == name {
+			return true
+		}
+	}
+	return false
+}
+
 func (fb *fileContext) addMessage(message *MessageBuilder) {
 	idx := int32(len(fb.fdp.MessageType))
 	path := []int32{4, idx}
@@ -102,6 +116,29 @@ func blankMessage(name string) *MessageBuilder {
 		},
 	}
 	return message
+}
+
+func (msg *MessageBuilder) hasType(name string) bool {
+	for _, nested := range msg.descriptor.NestedType {
+		if nested.GetName() == name {
+			return true
+		}
+	}
+	for _, enum := range msg.descriptor.EnumType {
+		if enum.GetName() == name {
+			return true
+		}
+	}
+	return false
+}
+
+func (msg *MessageBuilder) hasField(name string) bool {
+	for _, field := range msg.descriptor.Field {
+		if field.GetName() == name {
+			return true
+		}
+	}
+	return false
 }
 
 func (msg *MessageBuilder) addMessage(message *MessageBuilder) {
